@@ -628,6 +628,36 @@ theorem holdsMsgs_model (h0 start : Nat) (s : Spec) (rest : List Spec) (evs : Li
   omega
 
 
+/-- **chained_machines_follow_one_schedule** (`ExecuteDKG`): when the publication machine is started
+    at the block the GJKR machine returned, both machines ending normally, the block-counter calls
+    of a member are the nominal ones of the concatenated chain anchored at the common DKG start
+    block — whatever blocks, messages and `Initiate` durations either machine saw — and the
+    publication machine ends at `start + ProtocolBlocks() + PrePublicationBlocks()`. -/
+theorem chained_machines_follow_one_schedule (start h0 h0' : Nat) (evs evs' : List Ev)
+    (g : Spec) (grest : List Spec) (hg : gjkrChain = g :: grest)
+    (r : Spec) (rrest : List Spec) (hr : resultChain = r :: rrest)
+    (k e k' e' : Nat)
+    (h1 : (run h0 start g grest evs).res = .final k e)
+    (h2 : (run h0' e r rrest evs').res = .final k' e') :
+    e = start + Gen.C14.gjkrProtocolBlocks ∧
+    e' = start + Gen.C14.gjkrProtocolBlocks + Gen.C14.resultPrePublicationBlocks ∧
+    (run h0 start g grest evs).calls ++ (run h0' e r rrest evs').calls =
+      .wait start :: sched start gjkrChain ++ .wait e :: sched e resultChain := by
+  obtain ⟨a1, _, c1⟩ := end_block_eq h0 start g grest evs k e h1
+  obtain ⟨a2, _, c2⟩ := end_block_eq h0' e r rrest evs' k' e' h2
+  rw [← hg, gjkr_total_eq_ProtocolBlocks] at a1
+  rw [← hr, result_total_eq_PrePublicationBlocks] at a2
+  refine ⟨a1, by omega, ?_⟩
+  rw [c1, c2, hg, hr]
+
+/-- the nominal `ExecuteDKG` calls the driver prints are those of the theorem above at start 0 -/
+theorem dkgNominal_eq :
+    dkgNominal = .wait 0 :: sched 0 gjkrChain ++
+      .wait Gen.C14.gjkrProtocolBlocks :: (sched Gen.C14.gjkrProtocolBlocks resultChain).dropLast := by
+  have : endOf 0 gjkrChain = Gen.C14.gjkrProtocolBlocks := by
+    rw [endOf_eq, gjkr_total_eq_ProtocolBlocks]; simp
+  simp [dkgNominal, this]
+
 /-- non-vacuity: a run with a late block jump and a silent state ends normally at `start + total`
     (by `simp` unfolding; no kernel evaluation of the run). -/
 example : (run 0 2 { delay := 1, active := 2 } [{ delay := 0, active := 0 }] [.block 9]).res
